@@ -67,7 +67,7 @@ PROPS = {
         ],
         "trusted_base": [STDLIB, FSMODEL, "the process working directory is a parameter (cwd) of the model; data races between concurrent Pack calls cannot be exhibited by the model: covered by the -race supporting run (thorough) and by the repaired aliasing of the default rule list (F24, extracted fact: readRules copies the defaults)"],
         "assumptions": ["open findings F22, F23, F30 (root given as a relative link / chained link / 'link/') are reported as KNOWN-FINDING (closed counterexamples C16_cex_*)"],
-        "explanation": "C16_cwd_irrelevant (for an absolute clean source the result does not depend on the working directory), C16_spelling / C16_spelling_trailing_slash / C16_spelling_relative (spellings that denote the same directory give the same result: dot segments, '..' detours, trailing slash, relative to cwd), counterexamples for the three root-link findings. History independence holds by construction of the model (no state between calls) and is tied to the code by the 'ignore' lane's check that parsing never changes DefaultRuleset. Tie: 'pack-spelling' lane: twelve spellings/cwds of each tree + preceding parses + four concurrent Pack calls, compared with each other and with the model. Session 3: pack-spelling lane compares the last Pack of a generated history with the same Pack in a FRESH PROCESS (child vh), which is what exposes package-level caches; overlapping package-level Pack calls with different options.",
+        "explanation": "C16_cwd_irrelevant (for an absolute clean source the result does not depend on the working directory), C16_spelling / C16_spelling_trailing_slash / C16_spelling_relative (spellings that denote the same directory give the same result: dot segments, '..' detours, trailing slash, relative to cwd), counterexamples for the three root-link findings. History independence holds by construction of the model (no state between calls) and is tied to the code by the 'ignore' lane's check that parsing never changes DefaultRuleset. Tie: 'pack-spelling' lane: twelve spellings/cwds of each tree + preceding parses + four concurrent Pack calls, compared with each other and with the model. Session 3: pack-spelling lane compares the last Pack of a generated history with the same Pack in a FRESH PROCESS (child vh), which is what exposes package-level caches; overlapping package-level Pack calls with different options. Props/C16s: C16_no_new_process_state — regenerated fact: the package-level variables of the source are the known read-only tables or immutable values (a new cache, map, sync.Once or counter breaks the obligation).",
     },
     "C20": {
         "lanes": [
@@ -87,7 +87,7 @@ PROPS = {
         ],
         "trusted_base": [STDLIB, "net/url, terraform-registry-address, terraform-svchost (IDNA) and go-versions are parameters: on the lane the model receives the real library's answers as an oracle table for exactly the strings it asks about; URL printing (URL.String) is not modelled, so the print/parse round trip of remote addresses is established by the lane's oracle on real values, not by a theorem"],
         "assumptions": ["open findings F17, F18, F33-F36 (sub-paths that URL escaping rewrites, RawPath or fragment or trailing-slash package path combined with a sub-path, constructor inputs the parsers never produce, '@'/newline in a final registry sub-path) are reported as KNOWN-FINDING by mechanism"],
-        "explanation": "Props/C06r (registry addresses, under explicit laws about the external parsers — RegLaws/VerLaws: a printed package/version parses to itself and has no '?', '//', trailing ':' etc.): C06_registry_roundtrip_partial, C06_registry_print_canonical, C06_registry_print_inj (two registry addresses are equal exactly when they print the same), C06_matchFinal_spec (the hand-written matcher is exactly the pattern's leftmost-greedy semantics: soundness, completeness, maximality), C06_final_registry_roundtrip_partial (incl. the 'pkg//' quirk for an empty sub-path), C06_dispatch_registry / C06_dispatch_final_registry (ParseSource / ParseFinalSource hand printed registry addresses to the registry parser), C19_registry_no_panic_partial; counterexamples C06_cex_final_sub_at / _newline (F36), C06_cex_registry_sub_trailing_space (F42), C06_cex_registry_sub_query. Registry.lean models ParseRegistrySource / ParseFinalRegistrySource (incl. the hand-written matcher for the pattern ^(.+)@([^/]+)(//(.+))?$), their String methods and the dispatch of ParseSource / ParseFinalSource, with regaddr.ParseModuleSource and versions.ParseVersion as oracle parameters; the 'registry' lane asks the model which strings it needs parsed, answers with the real libraries and compares results and dispatch. C06_local_roundtrip, C06_local_resolve_canonical / _roundtrip (the repaired local resolution always yields a canonical, re-parseable local address: F16), C06_subpath_split_roundtrip_partial / _url (printing pkg//sub?query splits back; counterexamples C06_cex_split_* for the excluded shapes), C06_normalize_idem. Tie: 'addr' lane compares ParseRemoteSource / MakeRemoteSource / ParseLocalSource / ValidSubPath with the model (front end + URL record from the real net/url) and applies the round-trip oracle Parse(String(x)) == x to every accepted and every derived value (relative resolution, Versioned, FinalSourceAddr, SourceAddr), plus 'equal iff prints the same'. Session 3: Props/C06t — splitSubPath, ParseLocalSource, looksLikeLocalSource, normalizeSubpath of the model equal the Lean translations of the Go functions (regenerated on every run).",
+        "explanation": "Props/C06r (registry addresses, under explicit laws about the external parsers — RegLaws/VerLaws: a printed package/version parses to itself and has no '?', '//', trailing ':' etc.): C06_registry_roundtrip_partial, C06_registry_print_canonical, C06_registry_print_inj (two registry addresses are equal exactly when they print the same), C06_matchFinal_spec (the hand-written matcher is exactly the pattern's leftmost-greedy semantics: soundness, completeness, maximality), C06_final_registry_roundtrip_partial (incl. the 'pkg//' quirk for an empty sub-path), C06_dispatch_registry / C06_dispatch_final_registry (ParseSource / ParseFinalSource hand printed registry addresses to the registry parser), C19_registry_no_panic_partial; counterexamples C06_cex_final_sub_at / _newline (F36), C06_cex_registry_sub_trailing_space (F42), C06_cex_registry_sub_query. Registry.lean models ParseRegistrySource / ParseFinalRegistrySource (incl. the hand-written matcher for the pattern ^(.+)@([^/]+)(//(.+))?$), their String methods and the dispatch of ParseSource / ParseFinalSource, with regaddr.ParseModuleSource and versions.ParseVersion as oracle parameters; the 'registry' lane asks the model which strings it needs parsed, answers with the real libraries and compares results and dispatch. C06_local_roundtrip, C06_local_resolve_canonical / _roundtrip (the repaired local resolution always yields a canonical, re-parseable local address: F16), C06_subpath_split_roundtrip_partial / _url (printing pkg//sub?query splits back; counterexamples C06_cex_split_* for the excluded shapes), C06_normalize_idem. Tie: 'addr' lane compares ParseRemoteSource / MakeRemoteSource / ParseLocalSource / ValidSubPath with the model (front end + URL record from the real net/url) and applies the round-trip oracle Parse(String(x)) == x to every accepted and every derived value (relative resolution, Versioned, FinalSourceAddr, SourceAddr), plus 'equal iff prints the same'. Session 3: Props/C06t — splitSubPath, ParseLocalSource, looksLikeLocalSource, normalizeSubpath of the model equal the Lean translations of the Go functions (regenerated on every run). Props/C06s: C06_no_new_process_state — regenerated fact: the package-level variables of the source are the known read-only tables or immutable values (a new cache, map, sync.Once or counter breaks the obligation).",
     },
     "C07": {
         "lanes": [
@@ -95,7 +95,7 @@ PROPS = {
         ],
         "trusted_base": ["net/url is a parameter of the model (every policy check is made on what the URL parser returned, so soundness holds for ANY parser function)", "tables regenerated from the source on every run: source types, git schemes and query keys, archive values and suffixes, shorthand prefixes, whether MakeRemoteSource checks user info (Generated/Remote.lean)"],
         "assumptions": ["completeness ('every documented-valid address is accepted') is proved at the level of the URL record (C07_complete_partial); that url.Parse produces such a record for the documented grammar is checked by the lane's valid-grammar stream"],
-        "explanation": "C07_sound_parse (for any URL parser and any string, an accepted address satisfies the declarative Policy and carries no user info), C07_sound_make (constructor route), C07_case (type and scheme are lower-cased before lookup), C07_complete_partial / C07_complete_parse_partial, C07_front_shorthand (github.com / gitlab.com expansion). Tie: 'addr' lane: field-wise comparison of accepted values with the model + independent Go policy predicate on every accepted value of every route. Session 3: Props/C07t — normalizeSubpath and splitSubPath of the model equal the Lean translations of the Go functions (regenerated on every run).",
+        "explanation": "C07_sound_parse (for any URL parser and any string, an accepted address satisfies the declarative Policy and carries no user info), C07_sound_make (constructor route), C07_case (type and scheme are lower-cased before lookup), C07_complete_partial / C07_complete_parse_partial, C07_front_shorthand (github.com / gitlab.com expansion). Tie: 'addr' lane: field-wise comparison of accepted values with the model + independent Go policy predicate on every accepted value of every route. Session 3: Props/C07t — normalizeSubpath and splitSubPath of the model equal the Lean translations of the Go functions (regenerated on every run). Props/C07s: C07_no_new_process_state — regenerated fact: the package-level variables of the source are the known read-only tables or immutable values (a new cache, map, sync.Once or counter breaks the obligation).",
     },
     "C18": {
         "lanes": [
@@ -185,7 +185,7 @@ PROPS = {
                          "Go regexp engine restricted to the five fragments compile emits (lit, [^/]*, [^/], (.*/)?, .*) is modelled by matchT; bufio.ScanLines, strings.TrimSpace modelled",
                          "facts regenerated from the source on every run: default rule table, escaped-character set, (?s) flag (Generated/Ignore.lean)"],
         "assumptions": ["patterns with '[', ']' or '\\' are outside the modelled fragment (the rule language leaves them unspecified); '**' glued to other characters in one segment is outside WFVal"],
-        "explanation": "C03_compile_sound: for every well-formed stored pattern and EVERY path string the compiled regexp tokens decide exactly the segment-wise glob; C03_last_match_wins; C03_defaults (exact characterisation of the built-in rules); C03_marking (negationsAfter invariant of parsing, incl. the early break); C03_prune_sound under TailClosed + C03_cex_prune_star_tail; Props/C03w (walk level): C03_pack_excluded_never_ships_any (any options incl. dereferencing; F43 repaired), C03_pack_ships_iff, C03_pack_filter, C03_pack_included_ships_partial, C03_pack_nofilter, C03_bundle_excluded_removed, C03_bundle_included_kept_partial, C03_cex_bundle_reinclude / C03_cex_bundle_default_modules / C03_cex_bundle_dir_pattern_fails (F9 and its variants). Tie: 'ignore' lane runs ParseIgnoreFileContent/Excludes next to the model and an independent Go segment-wise matcher. Session 3: Props/C03t C03_tie_excludes — the model's excludes equals the Lean translation of Ruleset.Excludes regenerated from the Go source on every run (loop, last-match-wins assignments, dominating flag). Oracle-only corpus cases: rule files of more than 1 MiB and with a line of more than 64 KiB (F46, repaired) in the ignore, pack and sanitise lanes; the pack-spelling lane repeats the last Pack of a generated history (rule files replaced, deleted, re-created; shared pattern texts with and without later negations) in a fresh process and charges name-set differences to C03.",
+        "explanation": "C03_compile_sound: for every well-formed stored pattern and EVERY path string the compiled regexp tokens decide exactly the segment-wise glob; C03_last_match_wins; C03_defaults (exact characterisation of the built-in rules); C03_marking (negationsAfter invariant of parsing, incl. the early break); C03_prune_sound under TailClosed + C03_cex_prune_star_tail; Props/C03w (walk level): C03_pack_excluded_never_ships_any (any options incl. dereferencing; F43 repaired), C03_pack_ships_iff, C03_pack_filter, C03_pack_included_ships_partial, C03_pack_nofilter, C03_bundle_excluded_removed, C03_bundle_included_kept_partial, C03_cex_bundle_reinclude / C03_cex_bundle_default_modules / C03_cex_bundle_dir_pattern_fails (F9 and its variants). Tie: 'ignore' lane runs ParseIgnoreFileContent/Excludes next to the model and an independent Go segment-wise matcher. Session 3: Props/C03t C03_tie_excludes — the model's excludes equals the Lean translation of Ruleset.Excludes regenerated from the Go source on every run (loop, last-match-wins assignments, dominating flag). Oracle-only corpus cases: rule files of more than 1 MiB and with a line of more than 64 KiB (F46, repaired) in the ignore, pack and sanitise lanes; the pack-spelling lane repeats the last Pack of a generated history (rule files replaced, deleted, re-created; shared pattern texts with and without later negations) in a fresh process and charges name-set differences to C03. Props/C03s: C03_no_new_process_state — regenerated fact: the package-level variables of the source are the known read-only tables or immutable values (a new cache, map, sync.Once or counter breaks the obligation).",
     },
     "C10": {
         "lanes": [
